@@ -120,6 +120,21 @@ def run(model, col, tier):
     ex = model.cls(WA, "Export").own_method("WriteTo")
     col.check(any(isinstance(c, ast.Call) and last_attr(c) == "WriteString" for c in ast.walk(ex)), "R19.3", f"{WA}::Export.WriteTo uses WriteString", "export names go through WriteString", None, WA, ex)
     check_encoder_shape(model, col, "R19.4")
+    # ---------------- R19.5 the encoder is a function of its arguments -------------------
+    # no module- or class-level container in nsl/WebAssembly.py is written after import (a memo keyed by value would hand the
+    # unsigned bytes of an earlier write to a signed immediate)
+    from . import c18
+
+    sub = Collector("C18")
+    c18.run(model, sub, "quick")
+    n5 = 0
+    for ob in sub.obligations:
+        if ob.rule == "R18.2" and "WebAssembly" in ob.construct:
+            ob.rule = "R19.5"
+            col.obligations.append(ob)
+            n5 += 1
+    if n5 == 0:
+        col.ok("R19.5", f"{WA}:: no module-level or class-level mutable state", "the writer module binds no mutable object at import time")
 
 
 def check_encoder_shape(model, col, R):
@@ -130,20 +145,41 @@ def check_encoder_shape(model, col, R):
     src = unparse(pi)
     loops = [n for n in ast.walk(pi) if isinstance(n, (ast.For, ast.While))]
     col.floor(R, "encoder loops", len(loops), 2)
+    signed_region = set()
+    for n in ast.walk(pi):
+        if isinstance(n, ast.If) and ("signed" in unparse(n.test) or "< 0" in unparse(n.test)):
+            for s_ in n.body:
+                for x in ast.walk(s_):
+                    signed_region.add(id(x))
+    vname0 = pi.args.args[0].arg
     for lp in loops:
-        kind = "signed" if isinstance(lp, ast.While) else "unsigned"
+        kind = "signed" if id(lp) in signed_region else "unsigned"
         body = unparse(ast.Module(body=lp.body, type_ignores=[]))
         seven = "& 127" in body and ">>= 7" in body
         cont = "| 128" in body or "|= 128" in body
         col.check(seven, R, f"{WA}::PackInteger {kind} loop groups", "each byte carries the low 7 bits, then the value is shifted right by 7",
                   "the loop does not take `v & 0x7F` and shift right by 7 per byte", WA, lp)
         col.check(cont, R, f"{WA}::PackInteger {kind} loop continuation bit", "non-final bytes get the 0x80 continuation bit", "no continuation bit is set", WA, lp)
-        if kind == "unsigned":
-            good = "bit_length() / 7" in src and "ceil" in src and isinstance(lp.iter, ast.Call) and dotted(lp.iter.func) == "range"
+        if kind == "unsigned" and isinstance(lp, ast.For):
+            # counted form: exactly ceil(bit_length / 7) groups (no clamp), continuation on all but the last
+            cnt = lp.iter.args[0] if isinstance(lp.iter, ast.Call) and dotted(lp.iter.func) == "range" and len(lp.iter.args) == 1 else None
+            cnt_src = cnt
+            if isinstance(cnt, ast.Name):
+                vals_ = find_assign(pi, cnt.id)
+                cnt_src = vals_[0] if len(vals_) == 1 else None
+            canon_ = " ".join(unparse(cnt_src).split()) if cnt_src is not None else None
+            forms = (f"math.ceil({vname0}.bit_length() / 7)", f"ceil({vname0}.bit_length() / 7)", f"({vname0}.bit_length() + 6) // 7", f"-(-{vname0}.bit_length() // 7)")
+            cname = cnt.id if isinstance(cnt, ast.Name) else canon_
             conds = [n for n in ast.walk(lp) if isinstance(n, ast.If)]
-            good = good and any("+ 1 < blockCount" in unparse(c.test) or "< blockCount - 1" in unparse(c.test) for c in conds)
-            col.check(good, R, f"{WA}::PackInteger unsigned termination", "ceil(bit_length / 7) bytes, continuation on all but the last",
-                      "byte count / last-byte test is not ceil(bit_length/7) with continuation on all but the last byte", WA, lp)
+            last_ok = any(" ".join(unparse(c.test).split()) in (f"{lp.target.id} + 1 < {cname}", f"{lp.target.id} < {cname} - 1", f"{lp.target.id} != {cname} - 1") for c in conds) if isinstance(lp.target, ast.Name) else False
+            col.check(canon_ in forms and last_ok, R, f"{WA}::PackInteger unsigned termination", "ceil(bit_length / 7) bytes, continuation on all but the last",
+                      f"the number of groups is `{canon_}` (expected ceil(bit_length/7), unclamped) / the last-byte test is not `i + 1 < count`: values needing more groups are truncated or get a stray continuation bit", WA, lp)
+        elif kind == "unsigned":
+            # open form: while the value does not fit 7 bits emit a continued group; the rest is the last byte
+            t_ = " ".join(unparse(lp.test).split())
+            fits = t_ in (f"{vname0} >= 128", f"{vname0} > 127", f"{vname0} >> 7", f"{vname0} >> 7 != 0", f"{vname0} >> 7 > 0", f"{vname0} > 0x7f")
+            col.check(fits, R, f"{WA}::PackInteger unsigned termination", "continued groups while the value does not fit 7 bits",
+                      f"the loop continues while `{t_}`; a value whose rest is exactly 128 (or the boundary the test misses) is written with a continuation bit in its last byte or one group short", WA, lp)
         else:
             # fold the termination test over (remaining value, byte): stop iff the rest is the sign extension of bit 6
             ifs = [n for n in ast.walk(lp) if isinstance(n, ast.If) and any(isinstance(s, ast.Return) or isinstance(s, ast.Break) for s in ast.walk(n))]
